@@ -77,6 +77,9 @@ type TClient struct {
 	G      int  `json:"g"`      // goroutines calling the pd client
 	Async  bool `json:"async"`  // GetTSAsync + Wait instead of GetTS
 	PaceUs int  `json:"paceUs"` // pause between two calls of one goroutine
+	// every Cancel-th call (0 = never) gives up at once: GetTSAsync with a context that is cancelled before
+	// Wait / GetTS with a 50 us deadline; the callers that follow must still get distinct, ordered timestamps
+	Cancel int `json:"cancel,omitempty"`
 }
 
 type TCase struct {
@@ -115,7 +118,8 @@ func genGrpc(t *rapid.T) TCase {
 		c.Streams = 2
 	}
 	if vkit.Uni(t, 3, "client") == 0 {
-		c.Client = &TClient{G: 1 + vkit.Uni(t, 3, "g"), Async: rapid.Bool().Draw(t, "async"), PaceUs: vkit.PickU(t, []int{100, 500, 2000}, "pace")}
+		c.Client = &TClient{G: 1 + vkit.Uni(t, 3, "g"), Async: rapid.Bool().Draw(t, "async"), PaceUs: vkit.PickU(t, []int{100, 500, 2000}, "pace"),
+			Cancel: vkit.PickU(t, []int{0, 0, 2, 3, 7}, "cancelEvery")}
 	}
 	n := 4 + vkit.Uni(t, 9, "nsteps")
 	for i := 0; i < n; i++ {
@@ -320,11 +324,15 @@ func TestHelperPDClient(t *testing.T) {
 	if spec == "" {
 		t.Skip("helper process only")
 	}
-	// spec: url,g,async,paceUs
+	// spec: url,g,async,paceUs,cancelEvery
 	f := strings.Split(spec, ",")
 	g, _ := strconv.Atoi(f[1])
 	async := f[2] == "1"
 	pace, _ := strconv.Atoi(f[3])
+	cancelEvery := 0
+	if len(f) > 4 {
+		cancelEvery, _ = strconv.Atoi(f[4])
+	}
 	cli, err := pd.NewClient([]string{f[0]}, pd.SecurityOption{}, pd.WithCustomTimeoutOption(5*time.Second))
 	if err != nil {
 		fmt.Printf("NOCLIENT %v\n", err)
@@ -339,13 +347,21 @@ func TestHelperPDClient(t *testing.T) {
 		wg.Add(1)
 		go func(i int) {
 			defer wg.Done()
-			for atomic.LoadInt32(&stop) == 0 {
+			for n := 1; atomic.LoadInt32(&stop) == 0; n++ {
+				giveUp := cancelEvery > 0 && (n+i)%cancelEvery == 0
 				ctx, cancel := context.WithTimeout(context.Background(), 10*time.Second)
+				if giveUp && !async {
+					cancel()
+					ctx, cancel = context.WithTimeout(context.Background(), 50*time.Microsecond)
+				}
 				var p, l int64
 				var e error
 				send := livesrv.Stamp()
 				if async {
 					fut := cli.GetTSAsync(ctx)
+					if giveUp {
+						cancel() // the caller gives up while its request is queued or on its way
+					}
 					p, l, e = fut.Wait()
 				} else {
 					p, l, e = cli.GetTS(ctx)
@@ -415,7 +431,7 @@ func startChild(url string, tc *TClient) (*child, error) {
 	if tc.Async {
 		async = "1"
 	}
-	env := []string{fmt.Sprintf("%s=%s,%d,%s,%d", childEnv, url, tc.G, async, tc.PaceUs)}
+	env := []string{fmt.Sprintf("%s=%s,%d,%s,%d,%d", childEnv, url, tc.G, async, tc.PaceUs, tc.Cancel)}
 	for _, kv := range os.Environ() {
 		if strings.HasPrefix(kv, "VERIF_STATS=") || strings.HasPrefix(kv, "VERIF_REPLAY=") || strings.HasPrefix(kv, childEnv+"=") {
 			continue
